@@ -331,7 +331,12 @@ def part(ctx, harness_future=None):
     elif dis:
         search(ctx, exe, 3000)
     # ---------------- known finding: Matrix_ deep copy of a one-column/one-row block keeps a 1-d helper; a later 2-d resize aliases elements
-    dseqs = [gen_defect(ctx.rng, ctx.rng.choice(['d', 'f', 'c', 'v']))[0] for _ in range(40 if not thorough else 400)]
+    WITNESS = ['S d', 'new 0 3 3 1', 'view 0 blk 0 1 3 1', 'copy 1 0', 'asg 2 2 2 11 12 13 14', 'E']      # = refut_ops of theorem C25_assign_to_copied_column_block_refuted
+    dseqs = [WITNESS] + [gen_defect(ctx.rng, ctx.rng.choice(['d', 'f', 'c', 'v']))[0] for _ in range(40 if not thorough else 400)]
+    rcw, ow, ew = sh([exe], input='\n'.join(WITNESS) + '\n', timeout=60)
+    ctx.extra['views_refuted_witness_on_implementation'] = [l for l in ow.split('\n') if l.startswith('E 2:')][-1:]
+    if ctx.extra['views_refuted_witness_on_implementation'] != ['E 2: 11 13 13 12']:
+        ctx.notes.append('the witness of C25_assign_to_copied_column_block_refuted no longer gives [11 13; 13 12] on the implementation')
     nops2, dis2, refs2 = compare_stream(ctx, 'defect', dseqs, drv, exe)
     ctx.add_cases(nops2, len(set(l for s in dseqs for l in s)))
     ctx.extra['views_known_defect_chains'] = {'chains': len(dseqs), 'operations': nops2, 'chains_with_ref_mismatch': len(set(i for i, _ in refs2))}
